@@ -230,6 +230,7 @@ def make_tar(path, files, root_prefix=None):
             struct.append(("data", m.offset_data + m.size // 2))
             if m.size % 512:
                 struct.append(("data-padding", m.offset_data + m.size + (512 - m.size % 512) // 2))
+    make_tar.names = [ti.name for ti in members]         # for callers that filter entries (tar2sqfs --exclude-dir)
     return "".join(letters), offs + [end], (end, struct)
 
 
@@ -736,8 +737,13 @@ def gen_cases(ctx, d, rng, tools, thorough):
     with open(d / "in.tar", "rb") as fi, open(d / "in.tar.gz", "wb") as fo:
         with _gz.GzipFile(fileobj=fo, mode="wb", mtime=0, compresslevel=rng.choice([1, 6, 9])) as g:
             g.write(fi.read())
-    cases.append(Case("t2s-gz", "tar2sqfs", ["-b", str(BS), "-j", "1", "-x", "--no-skip", "-q", "@OUT@"], "file", stdin=str(d / "in.tar.gz"),
-                      model=("packer", "t2s", "nq", 0, letters), cut=("gz", os.path.getsize(d / "in.tar.gz")), plan="sys+sample:60"))
+    import fnmatch as _fn
+    excl = rng.choice(["dir2*", "dir1/*", "*.bin"])          # entries the tar iterator drops before process_tarball sees them
+    letters_gz = "".join(l for l, nm in zip(letters, make_tar.names) if not _fn.fnmatchcase(nm, excl))
+    if len(letters) != len(make_tar.names) or len(letters_gz) == len(letters):
+        raise Infra("t2s-gz: --exclude-dir %s excludes nothing" % excl)
+    cases.append(Case("t2s-gz", "tar2sqfs", ["-b", str(BS), "-j", "1", "-x", "--no-skip", "-E", excl, "-q", "@OUT@"], "file", stdin=str(d / "in.tar.gz"),
+                      model=("packer", "t2s", "nq", 0, letters_gz), cut=("gz", os.path.getsize(d / "in.tar.gz")), plan="sys+sample:60"))
     # a compressed archive longer than the 128 KiB buffer of the file stream, in two gzip members, the first one exactly as
     # long as that buffer and ending between two tar entries: a failing second read must be an error, not the end of the input
     gzb, gzb_letters, gzb_m1 = make_gz_boundary(d / "in_b.tar.gz", rng)
@@ -1006,7 +1012,7 @@ def observe(case, base, r, same=None):
 
 
 def cls_group(cls):
-    return "alloc" if cls in ALLOC_CLASSES else cls
+    return "mmap" if cls == "mmap" else "alloc" if cls in ALLOC_CLASSES else cls
 
 
 def count_files(root):
@@ -1682,6 +1688,13 @@ def run(ctx):
             floor.append("%d runs, %d compared with the model" % (stats["runs"], stats["model_compared"]))
         if never:
             floor.append("no fault made these sites fail: %s" % never)
+        sc = stats["stdout_class"]
+        if sc["runs"] < 4 * 8 or sc["model_compared"] < 3 * 6:
+            floor.append("fault class stdout: %d runs, %d compared with the model" % (sc["runs"], sc["model_compared"]))
+        npool = sum(v.get("fired", 0) for k, v in stats["by_case"].items() if k.endswith("@pool"))
+        nmmap = sum(1 for x in acc["distinct"] if x[1] == "mmap")
+        if npool < 100 or nmmap == 0:
+            floor.append("pool-allocator builds: %d fired faults, %d distinct mmap sites" % (npool, nmmap))
         if floor and not ctx.violations:
             # (when a correspondence violation was reported the model comparison of that case is skipped, which explains a
             # missed floor; otherwise the generators no longer reach the code and the check must not pass)
@@ -1696,7 +1709,10 @@ def run(ctx):
                 "-c, -x, -d, -s on a generated input (duplicate, fragment, all-zero tails, sparse blocks, hard link, xattrs, export table; extras, compressor, -j and "
                 "-q depend on the seed); gen-mt: -j 2..4, sampled; boundary cases b-meta (every table > one meta block) / b-data (block list growth, duplicate "
                 "fragment read back from disk) (/ b-frag in thorough): every output write/truncate, allocations stratified by call site; gen-many: realloc positions on a "
-                "513-inode tree. non-trivial = distinct (tool, class, innermost two project frames) at which a fault fired",
+                "513-inode tree. Round 3: fsop also = opendir/fdopendir/readdir/fflush; class mmap in pool-allocator builds (…@pool cases: every mmap + 35 sampled "
+                "allocations); class stdout (devfull/closed/epipe + stderr on /dev/full) for s2t, s2t-c, rd-u, rd-c, rd-x, rd-d, rd-s, rd-l, rd-d-nox, gen-F, t2s; "
+                "cases gen-glob, gen-kx (--keep-xattr), t2s-gz (-x --no-skip -E glob), t2s-gzb, t2s-sparse0..2, s2t-sub, rd-l, rd-d-nox: every EIO/ENOSPC "
+                "system call position + 25..70 sampled others. non-trivial = distinct (tool, class, innermost two project frames) at which a fault fired",
         "exhaustive": True,
         "samples": acc["samples"],
         "disagreements_checked": acc["corr_bad"],
@@ -1716,7 +1732,11 @@ def run(ctx):
         "output, stderr, stdout); what happens below a site (tar parser, fstree, xattr writer, meta writers, readers) is established only by the enumeration "
         "(complete per input and single fault, not for all inputs)"],
         assumptions=["faults are single (one failing call per run; EINTR kind = EINTR then EIO on the retry; truncated input = the input ends at one point and stays ended)",
-                     "third-party libraries' own allocations and the kernel are not faulted; mempool.c (mmap) is not part of the build (NO_CUSTOM_ALLOC)"])
+                     "third-party libraries' own allocations and the kernel are not faulted",
+                     "two builds: plain malloc (-DNO_CUSTOM_ALLOC, every case) and /repo's default configuration (pool allocator mempool.c; the "
+                     "cases named …@pool: every mmap of the pool + a sample of the other allocations)",
+                     "a write error on standard output is produced by the environment (/dev/full, closed descriptor, pipe without reader with SIGPIPE "
+                     "ignored), not by the shim: stdio's writes are libc-internal"])
 
 
 def replay(ctx, path):
